@@ -5,7 +5,7 @@ META = {
     "explanation": "All-paths rules on liburcu-cds: publication order of new nodes (next set, same snapshot, then cmpxchg; reverse_hash before size is sampled), reader filter atoms of "
                    "lookup/next/next_duplicate (a node is returned only with REMOVED and BUCKET clear in the word it was read with, equal hash and match; consume loads; strict order stop), "
                    "size acquire/release and grow order allocate ≺ populate ≺ publish, shrink order publish ≺ GP ≺ unlink ≺ GP ≺ free, bucket selection hash & (size-1) and bucket "
-                   "reverse hashes, resize partitions inside read-side sections, exactness of the bit-reversal table and byte placement.",
+                   "reverse hashes, resize partitions inside read-side sections, exactness of the bit-reversal table and byte placement; atomic-step shapes of replace, del and gc_bucket (shared with C06/C07).",
     "not_decided": "linearizability; that these mechanisms suffice for `never missed` under all interleavings",
 }
 RULES = [
@@ -16,5 +16,8 @@ RULES = [
     ("C05.bucket", lambda c, r: lfht.rule_bucket(c, r, "C05.bucket")),
     ("C05.rs", lambda c, r: lfht.rule_rs(c, r, "C05.rs")),
     ("C05.rev", lambda c, r: lfht.rule_rev(c, r, "C05.rev")),
+    ("C05.replace", lambda c, r: lfht.rule_replace(c, r, "C05.replace")),
+    ("C05.del", lambda c, r: lfht.rule_del(c, r, "C05.del")),
+    ("C05.gc", lambda c, r: lfht.rule_gc(c, r, "C05.gc")),
 ]
 FLOORS = {}
